@@ -1483,6 +1483,8 @@ class Collection(object):
         if remove:
             self.delete_one(query)
         else:
+            # a projection that is refused is refused before the write, not after it
+            self._copy_only_fields({}, projection, dict)
             updated = self._update(query, update, upsert)
             if updated['n'] and not updated['updatedExisting']:
                 # an upsert happened (its _id may be falsy or even null)
